@@ -1,6 +1,6 @@
 //! Scenario generator, shrinker and `Family` implementation for CH-CONC.
 
-use super::adapt::Flavour;
+use super::adapt::{Flavour, RRes, SRes};
 use super::conc::*;
 use super::drive::Plan;
 use super::oracle;
@@ -201,7 +201,8 @@ impl Family for ConcFamily {
   }
 
   fn finish(&self, sc: &ChanSc, out: crate::core::run::RunOut) -> Evaluated {
-    let run = finish_scenario(out);
+    let mut run = finish_scenario(out);
+    reach(&mut run);
     if std::env::var("VERIF_DUMP").is_ok() {
       for e in &run.events {
         println!("  ev actor={} handle={} inv={} ret={} {:?}", e.actor, e.handle, e.inv, e.ret, e.k);
@@ -403,4 +404,48 @@ pub fn valid(sc: &ChanSc) -> bool {
     return false;
   }
   true
+}
+
+/// History-derived reach counters (reported under `probes` in the evidence): which of the rare
+/// outcomes the property statements talk about actually occurred.
+fn reach(run: &mut ChanRun) {
+  let mut hit = |name: &'static str| *run.out.probes.entry(name).or_insert(0) += 1;
+  for e in &run.events {
+    let spanned = e.ret > e.inv + 1;
+    match &e.k {
+      EvK::Send { form, input, out, .. } => {
+        match out.res {
+          SRes::Closed if !out.back.is_empty() => hit("reach_send_closed_value_handed_back"),
+          SRes::Full => hit("reach_try_send_full"),
+          SRes::Cancelled if !out.unknown.is_empty() => hit("reach_send_future_cancelled_fate_unknown"),
+          SRes::Cancelled => hit("reach_send_future_cancelled"),
+          _ => {}
+        }
+        if out.sent > 0 && out.sent < input.len() {
+          hit("reach_batch_send_partial");
+        }
+        if spanned && matches!(form, SendForm::Single | SendForm::Batch | SendForm::BatchMut) && out.sent > 0 {
+          hit("reach_blocking_send_overlapped_other_operations");
+        }
+      }
+      EvK::Recv { form, out, max, .. } => {
+        match out.res {
+          RRes::Disconnected => hit("reach_recv_disconnected"),
+          RRes::Timeout => hit("reach_recv_timeout_elapsed"),
+          RRes::Empty => hit("reach_try_recv_empty"),
+          RRes::Cancelled => hit("reach_recv_future_cancelled"),
+          _ => {}
+        }
+        if !out.got.is_empty() && out.got.len() < *max && matches!(form, RecvForm::Batch | RecvForm::BatchMut | RecvForm::TryBatch | RecvForm::TryBatchMut) {
+          hit("reach_batch_recv_partial");
+        }
+        if spanned && !out.got.is_empty() && matches!(form, RecvForm::Single | RecvForm::Batch | RecvForm::BatchMut) {
+          hit("reach_blocking_recv_overlapped_other_operations");
+        }
+      }
+      EvK::TxClose { .. } | EvK::RxClose { .. } => hit("reach_explicit_close"),
+      EvK::ConsumerBail => hit("reach_consumer_left_with_values_buffered"),
+      _ => {}
+    }
+  }
 }
